@@ -213,6 +213,20 @@ var (
 		Text: "merging constants creates no sharing the program can see: imports of a builtin module are separate objects before de-duplication and one object after it (re-derived; a listed finding)"}
 	rBLT1 = &Rule{Name: "BLT.1", Floor: 60, Fn: ruleBLT1,
 		Text: "the builtin table: each name is bound to the function spelled like it; the documented builtins are the table's; each is_<type> predicate answers true for exactly the type its name says and false otherwise"}
+	rADPT8 = &Rule{Name: "ADPT.8", Floor: 5, Fn: ruleADPT8,
+		Text: "a hand-written wrapper that guards an integer argument before handing it straight to a Go standard-library function rejects only values for which that function panics (panic domain read from the function's own source; guard and domain evaluated over a window of integers)"}
+	rALIAS1 = &Rule{Name: "ALIAS.1", Floor: 1, Fn: ruleALIAS1,
+		Text: "no tail cut off a buffer (t = x[i:]) is read after the buffer was cut back and appended to: the append overwrites the bytes the tail shares (the formatter's exponent handling copies the tail first, as fmt does)"}
+	rCONV2 = &Rule{Name: "CONV.2", Floor: 3, Fn: ruleCONV2,
+		Text: "the string arms of ToInt/ToInt64/ToFloat64 convert with strconv.ParseInt(s, 10, 64) / ParseFloat(s, 64): script strings coerce to numbers the decimal way"}
+	rSCOPE2 = &Rule{Name: "SCOPE.2", Floor: 2, Fn: ruleSCOPE2,
+		Text: "a function body is a block below its parameters: the function-literal arm compiles node.Body through the block-statement arm, which forks a block scope"}
+	rMOD6 = &Rule{Name: "MOD.6", Floor: 5, Fn: ruleMOD6,
+		Text: "one name per module: compileModule hands one unmodified parameter to the cycle check, the module cache (load and store) and the forked compiler"}
+	rJSON7 = &Rule{Name: "JSON.7", Floor: 2, Fn: ruleJSON7,
+		Text: "the bytes validated are the bytes given: json.Decode passes its parameter, unmodified, to the validity automaton"}
+	rLIT2 = &Rule{Name: "LIT.2", Floor: 2, Fn: ruleLIT2,
+		Text: "in every branch the parser takes for a string token, the token's text is used only as the argument of strconv.Unquote, as a node's Literal field or in an error message"}
 	rCALL1 = &Rule{Name: "CALL.1", Floor: 1, Fn: ruleCALL1,
 		Text: "the array of variadic arguments that OpCall builds stands on storage made in that arm, never on the slice of a spread operand (SSA value-origin analysis)"}
 	rADPT6 = &Rule{Name: "ADPT.6", Floor: 2, Fn: ruleADPT6,
@@ -234,7 +248,7 @@ func allProperties() []*Property {
 		{ID: "C01",
 			Decided:    "compiler, generic codec, opcode tables and every VM arm agree byte for byte on the instruction format.",
 			NotDecided: "the language semantics themselves (values computed by operators, control flow, scoping, builtins).",
-			Rules:      []*Rule{rCODEC1, rCODEC2, rCODEC3, rCODEC4, rFRESH, rOPARM, rOPDOC, rSEM, rSEM3, rIDX1, rTWIN1, rFAM1, rSYM1, rSYM3, rCALL1, rSTK1, rSTK2, rBLT1}},
+			Rules:      []*Rule{rCODEC1, rCODEC2, rCODEC3, rCODEC4, rFRESH, rOPARM, rOPDOC, rSEM, rSEM3, rIDX1, rTWIN1, rFAM1, rSYM1, rSYM3, rCALL1, rSTK1, rSTK2, rBLT1, rALIAS1, rSCOPE2}},
 		{ID: "C02",
 			Decided:    "instruction format agreement; opcode-class agreement.",
 			NotDecided: "stack balance and jump well-formedness for all compiled programs.",
@@ -262,7 +276,7 @@ func allProperties() []*Property {
 		{ID: "C08",
 			Decided:    "lock discipline of *Compiled; Copy is deep and fresh (what makes per-clone globals independent).",
 			NotDecided: "absence of data races over all interleavings; equality with the sequential baseline.",
-			Rules:      []*Rule{rLOCK, rCOPY1, rCLONE1, rFRESHVM, rSHARE, rPOOL1, rREC, rABORT}},
+			Rules:      []*Rule{rLOCK, rCOPY1, rCLONE1, rFRESHVM, rSHARE, rPOOL1, rREC, rABORT, rSEARCH1}},
 		{ID: "C09",
 			Decided:    "no route from the storage of an immutable array/map to a write or to a mutable owner, in any function of any package (ownership rule on two fields).",
 			NotDecided: "immutability broken by embedder code or unsafe/reflect (neither occurs in the tree).",
@@ -270,19 +284,19 @@ func allProperties() []*Property {
 		{ID: "C10",
 			Decided:    "Copy is deep and fresh for every container.",
 			NotDecided: "arithmetic results; NaN/±0 laws as numeric facts.",
-			Rules:      []*Rule{rCMP1, rCMP2, rCMP3, rCMP4, rCMP5, rCMP6, rCONV1, rFALSY1, rCOPY1, rCOPY2, rTWIN1, rSING1}},
+			Rules:      []*Rule{rCMP1, rCMP2, rCMP3, rCMP4, rCMP5, rCMP6, rCONV1, rCONV2, rFALSY1, rCOPY1, rCOPY2, rTWIN1, rSING1}},
 		{ID: "C15",
 			Decided:    "type-level round trip of FromInterface/ToInterface; typed accessors call the documented conversion; Set/Get/GetAll guards; lock discipline; conversion table agreement.",
 			NotDecided: "the history clause (a variable reads as the last value set) over all call sequences.",
-			Rules:      []*Rule{rXCH, rXCH4, rXCH5, rSYM2, rLOCK, rCONV1, rCLONE1, rSING1}},
+			Rules:      []*Rule{rXCH, rXCH4, rXCH5, rSYM2, rLOCK, rCONV1, rCONV2, rCLONE1, rSING1}},
 		{ID: "C11",
 			Decided:    "the three variable families' selector-assignment arms are clones; operand decoding of all Local/Free/Global opcodes agrees with the encoder.",
 			NotDecided: "the metamorphic relation itself (needs executing transformed programs).",
-			Rules:      []*Rule{rFAM1, rLOCALTS, rCODEC3, rSYM1, rSYM2, rSYM3, rTAIL}},
+			Rules:      []*Rule{rFAM1, rLOCALTS, rCODEC3, rSYM1, rSYM2, rSYM3, rTAIL, rSCOPE2}},
 		{ID: "C13",
 			Decided:    "module bodies are compiled against a fresh builtin-only table; the cycle check dominates and walks the import stack; compile-once ordering at the root cache; import = CONST+CALL; exported values pass OpImmutable; file APIs are confined behind the permission flag.",
 			NotDecided: "termination and the exact success condition over all import graphs as a run-time fact.",
-			Rules:      []*Rule{rMOD, rIMM4}},
+			Rules:      []*Rule{rMOD, rMOD6, rIMM4}},
 		{ID: "C14",
 			Decided:    "sentinel and host errors survive to the caller wrapped with %w; every instruction gets a source position keyed by its own offset, kept consistent through the optimizer; call-site ips are saved before frame switches and looked up innermost first.",
 			NotDecided: "that a reported position lies within the failing statement (depends on per-opcode ip bookkeeping and each program's source map).",
@@ -290,23 +304,23 @@ func allProperties() []*Property {
 		{ID: "C16",
 			Decided:    "the VM's tail-call predicate is exactly 'next is RET or POP;RET'; the reuse path grows no frame and overwrites parameter slots directly; the compiler places RET directly after the documented tail positions.",
 			NotDecided: "that deep recursion terminates with the right value.",
-			Rules:      []*Rule{rTAIL, rCODEC3, rCALL1}},
+			Rules:      []*Rule{rTAIL, rCODEC3, rCALL1, rLOCALTS}},
 		{ID: "C17",
 			Decided:    "all output goes through writers guarded by MaxStringLen; explicit panics are the limit error or proven unreachable; width/precision are bounded; printer pooling hygiene; verb dispatch, flag parsing and the verbatim-ported helpers agree with the building toolchain's fmt.",
 			NotDecided: "equality with fmt.Sprintf for all inputs (the non-identical parts of the port: fmtInteger, fmtFloat, fmtC, padding, doFormat's argument handling); implicit index panics inside digit loops.",
-			Rules:      []*Rule{rLIMIT2, rFMT1, rFMT2, rFMT3, rFMT4, rFMT5, rFMT6, rFMT7, rFMT8, rPOOL1}},
+			Rules:      []*Rule{rLIMIT2, rFMT1, rFMT2, rFMT3, rFMT4, rFMT5, rFMT6, rFMT7, rFMT8, rPOOL1, rALIAS1}},
 		{ID: "C18",
 			Decided:    "the validity automaton equals encoding/json's state by state; validate-before-decode; number typing by '.', 'e', 'E'; escape tables equal the reference's; encoder arms for all named types.",
 			NotDecided: "round-trip equality of values; number and string values after decoding; float formatting.",
-			Rules:      []*Rule{rJSON1, rJSON2, rJSON3, rJSON4, rJSON5, rJSON6}},
+			Rules:      []*Rule{rJSON1, rJSON2, rJSON3, rJSON4, rJSON5, rJSON6, rJSON7}},
 		{ID: "C19",
 			Decided:    "the wiring of the stdlib modules: adapters do what their function type says; table keys name the Go function/constant they wrap; hand-written wrappers call the function their key names with arguments in order; documentation and tables agree; generated source is in sync.",
 			NotDecided: "the Go functions' results (they are the specification); value-level behaviour of hand-written wrappers (size limits, defaults).",
-			Rules:      []*Rule{rADPT1, rADPT2, rADPT3, rADPT4, rADPT5, rADPT6, rADPT7, rPORT1}},
+			Rules:      []*Rule{rADPT1, rADPT2, rADPT3, rADPT4, rADPT5, rADPT6, rADPT7, rADPT8, rPORT1}},
 		{ID: "C20",
 			Decided:    "documented precedence = implemented precedence with left-associative climbing; literal conversion is delegated to strconv on the token text; compound printers are self-delimiting and complete; the semicolon-insertion token set; every operator token the parser can produce is compiled to its own operator.",
 			NotDecided: "the re-parse/re-compile equality as a fact about all programs; literal values (delegated to strconv, trusted); comment/whitespace layouts.",
-			Rules:      []*Rule{rPREC1, rLIT1, rPRINT, rSEMI1, rSEMI2, rSCAN1, rSEM}},
+			Rules:      []*Rule{rPREC1, rLIT1, rLIT2, rPRINT, rSEMI1, rSEMI2, rSCAN1, rSEM}},
 		{ID: "C12",
 			Decided:    "constant re-indexing covers exactly the opcodes through which the VM reads the constant pool, with the operand layout of the tables.",
 			NotDecided: "behavioural equality after de-duplication / gob round trip.",
